@@ -623,6 +623,16 @@ fn main() {
             if !near(solid.centroid(), 4.0 / 3.0, 1.0) {
                 fail(format!("triangle polygon: centroid {:?}, expected (4/3, 1)", solid.centroid()));
             }
+            // rings that do not start at the origin (the formula shifts to the first vertex and back)
+            let far: geo_types::LineString<f64> = vec![(10.0, 20.0), (14.0, 20.0), (10.0, 23.0), (10.0, 20.0)].into();
+            if !near(geo_types::Polygon::new(far, vec![]).centroid(), 34.0 / 3.0, 21.0) {
+                fail("triangle polygon away from the origin: centroid is not the mean of its vertices".to_string());
+            }
+            let l_shape: geo_types::LineString<f64> = vec![(5.0, 5.0), (9.0, 5.0), (9.0, 7.0), (7.0, 7.0), (7.0, 9.0), (5.0, 9.0), (5.0, 5.0)].into();
+            // L = 4x2 rectangle (centre (7,6), area 8) + 2x2 square (centre (6,8), area 4)
+            if !near(geo_types::Polygon::new(l_shape, vec![]).centroid(), (7.0 * 8.0 + 6.0 * 4.0) / 12.0, (6.0 * 8.0 + 8.0 * 4.0) / 12.0) {
+                fail("L-shaped polygon: centroid differs from the area-weighted mean of its two rectangles".to_string());
+            }
             println!("ok centroid contributions");
         }
         "polygon_distance" => {
